@@ -263,6 +263,7 @@ def rule_count_survives_reads(ctx):
     ctx.floor("C04.h reader paths", n, 5)
 
 
+from .c05 import rule_reset  # noqa: E402  (after a failed statement rowcount is None, not the previous statement's count)
 from .c16 import rule_nop  # noqa: E402  (a statement wrongly no-op'd changes no rows and reports no count)
 
 def rule_lookups_scoped(ctx):
@@ -326,6 +327,7 @@ def rule_executemany_count(ctx):
 
 
 RULES = [
+    ("C04.i", rule_reset, ("quick", "thorough")),
     ("C04.h", rule_count_survives_reads, ("quick", "thorough")),
     ("C04.g", rule_executemany_count, ("quick", "thorough")),
     ("C04.f", rule_lookups_scoped, ("quick", "thorough")),
